@@ -37,7 +37,7 @@ func Alphabet(pc ref.PConfig) []ref.Cmd {
 	add(ref.Cmd{Name: verb + " fail", Op: "HELLO", Verb: verb, Arg: "fail.example", Steps: [][]byte{line(verb + " fail.example")}})
 
 	add(ref.Cmd{Name: "MAIL ok", Op: "MAIL", Arg: "ok1@a.example", Steps: [][]byte{line("MAIL FROM:<ok1@a.example>")}})
-	add(ref.Cmd{Name: "MAIL rej", Op: "MAIL", Arg: "rej@a.example", Steps: [][]byte{line("MAIL FROM:<rej@a.example>")}})
+	add(ref.Cmd{Name: "MAIL rej", Op: "MAIL", Arg: "rej@a.example", Steps: [][]byte{line("mail from:<rej@a.example>")}})
 	add(ref.Cmd{Name: "MAIL rej multi-line", Op: "MAIL", Arg: "rejml@a.example", Steps: [][]byte{line("MAIL FROM:<rejml@a.example>")}})
 	add(ref.Cmd{Name: "MAIL rej without enhanced code", Op: "MAIL", Arg: "rejne@a.example", Steps: [][]byte{line("MAIL FROM:<rejne@a.example>")}})
 	add(ref.Cmd{Name: "MAIL tmp", Op: "MAIL", Arg: "tmp@a.example", Steps: [][]byte{line("MAIL FROM:<tmp@a.example>")}})
@@ -48,7 +48,7 @@ func Alphabet(pc ref.PConfig) []ref.Cmd {
 	add(ref.Cmd{Name: "MAIL panic", Op: "MAIL", Arg: "panic@a.example", Steps: [][]byte{line("MAIL FROM:<panic@a.example>")}})
 
 	add(ref.Cmd{Name: "RCPT a", Op: "RCPT", Arg: "oka@b.example", Steps: [][]byte{line("RCPT TO:<oka@b.example>")}})
-	add(ref.Cmd{Name: "RCPT b", Op: "RCPT", Arg: "okb@b.example", Steps: [][]byte{line("RCPT TO:<okb@b.example>")}})
+	add(ref.Cmd{Name: "RCPT b", Op: "RCPT", Arg: "okb@b.example", Steps: [][]byte{line("Rcpt To:<okb@b.example>")}})
 	add(ref.Cmd{Name: "RCPT rej", Op: "RCPT", Arg: "rej@b.example", Steps: [][]byte{line("RCPT TO:<rej@b.example>")}})
 	add(ref.Cmd{Name: "RCPT rej without enhanced code", Op: "RCPT", Arg: "rejne@b.example", Steps: [][]byte{line("RCPT TO:<rejne@b.example>")}})
 	add(ref.Cmd{Name: "RCPT syntax", Op: "RCPT", Bad: "syntax", Steps: [][]byte{line("RCPT TO:<@>")}})
@@ -60,14 +60,20 @@ func Alphabet(pc ref.PConfig) []ref.Cmd {
 	}
 	for _, d := range []string{"accept-d1", "reject-d2", "early-d3", "panic-d4", "rejectne-d5"} {
 		body, wire := msg(d)
-		add(ref.Cmd{Name: "DATA " + d, Op: "DATA", Body: body, Steps: [][]byte{line("DATA"), wire}})
+		add(ref.Cmd{Name: "DATA " + d, Op: "DATA", Body: body, Steps: [][]byte{line(map[bool]string{true: "data", false: "DATA"}[d == "reject-d2"]), wire}})
 	}
 	add(ref.Cmd{Name: "DATA with argument", Op: "DATA", Bad: "arg", Steps: [][]byte{line("DATA now")}})
 
+	// command words and keywords are case-insensitive (RFC 5321 2.4): some entries are spelled in lower or mixed case
+	spell := map[string][2]string{"BDAT accept-c2 LAST": {"bdat", "last"}, "BDAT early-c5 LAST (fails inside the chunk)": {"Bdat", "Last"}, "BDAT accept-c1": {"bDAT", ""}}
 	chunk := func(name, payload string, last bool) {
-		l := fmt.Sprintf("BDAT %d", len(payload))
+		verb, lastWord := "BDAT", "LAST"
+		if sp, ok := spell[name]; ok {
+			verb, lastWord = sp[0], sp[1]
+		}
+		l := fmt.Sprintf("%s %d", verb, len(payload))
 		if last {
-			l += " LAST"
+			l += " " + lastWord
 		}
 		add(ref.Cmd{Name: name, Op: "BDAT", Size: len(payload), Last: last, Payload: []byte(payload),
 			Steps: [][]byte{append(line(l), payload...)}})
@@ -103,6 +109,7 @@ func Alphabet(pc ref.PConfig) []ref.Cmd {
 		{"AUTH fail", &ref.AuthScript{Mech: "ONE", N: 1, IR: octets("bad")}},
 		{"AUTH cancel", &ref.AuthScript{Mech: "ONE", N: 1, IR: ref.AuthResp{Absent: true}, Resps: []ref.AuthResp{{Wire: "*", Cancel: true}}}},
 		{"AUTH bad base64", &ref.AuthScript{Mech: "ONE", N: 1, IR: ref.AuthResp{Wire: "!!!", Bad: true}}},
+		{"AUTH empty initial response (=)", &ref.AuthScript{Mech: "ONE", N: 1, IR: octets("")}},
 	} {
 		add(AuthCmd(sc.name, sc.s))
 	}
@@ -592,7 +599,7 @@ func exploreProtocol(run *h.Run, prefix string, pc ref.PConfig, alpha []ref.Cmd,
 			run.Trace(1)
 			if r.Finding != nil {
 				sub := "bfs"
-				c := bfsCase{PC: pc, Hist: hist, Names: histNames(alpha, hist), Prefix: prefix}
+				c := bfsCase{PC: pc, Hist: hist, Names: histNames(alpha, hist), Prefix: prefix, Tier: run.Tier}
 				if r.FailedAt >= 0 && r.FailedAt < len(hist)-1 {
 					r.Finding = h.F(prefix+"-prefix-diverged", "a prefix that passed before now fails (nondeterminism?): %s", r.Finding.What)
 				}
@@ -646,10 +653,19 @@ type bfsCase struct {
 	Hist   []int       `json:"history"`
 	Names  string      `json:"names"`
 	Prefix string      `json:"prefix"`
+	Tier   string      `json:"tier,omitempty"` // C09's alphabet depends on the tier
 }
 
 func replayBFS(c bfsCase) *h.Finding {
 	alpha := Alphabet(c.PC)
+	if c.Prefix == "c09" {
+		alpha = c09Alphabet(c.PC, c.Tier)
+	}
+	for _, i := range c.Hist {
+		if i < 0 || i >= len(alpha) {
+			return h.F("harness-error", "history index %d outside the alphabet of %d commands", i, len(alpha))
+		}
+	}
 	r := runLockstep(c.Prefix, c.PC, alpha, c.Hist)
 	return r.Finding
 }
